@@ -47,6 +47,13 @@ def cfg_json(case):
             "n": case["n"], "nStart": case["nStart"], "selX": case["selX"]}
 
 
+def sizes_json(case):
+    return {"sampT": case["sampT"], "sampX": case["sampX"], "bT": case["bT"], "bX": case["bX"],
+            "dim": case["dim"],
+            "missingStart": ("ntStart_arg" in case and case["ntStart_arg"] is None)
+            or ("nStart_arg" in case and case["nStart_arg"] is None)}
+
+
 def cap_of(case):
     caps = []
     if has_t(case["kind"]):
@@ -60,7 +67,7 @@ def static_key(case):
     """what forces a new XLA compilation"""
     return tuple(case[k] for k in ("kind", "mode", "dim", "nt", "ntStart", "selT", "sampT", "bT",
                                    "n", "nStart", "selX", "sampX", "bX", "Q")) + (
-        case.get("n_iter") if case["mode"] == "solve" else 0,)
+        case.get("n_iter") if case["mode"] == "solve" else 0, bool(case.get("system")))
 
 
 def random_landscape(rng, nv):
@@ -113,6 +120,41 @@ def build(case):
     tmin, tmax = float(case["tmin"]), float(case["tmax"])
     xmin = tuple(float(v) for v in case["xmin"])
     xmax = tuple(float(v) for v in case["xmax"])
+    if case.get("system"):
+        # a system of two equations on two networks: r1 = u1 + a, r2 = u2 - a (trigger mode only)
+        from jinns.loss._LossODE import SystemLossODE
+        from jinns.loss._LossPDE import SystemLossPDE
+        from jinns.loss._loss_weights import LossWeightsODEDict, LossWeightsPDEDict
+        from jinns.parameters import ParamsDict
+
+        poly2 = poly_from_json(nv, case["poly2"])
+        pinn2 = make_pinn([poly2], EQ_TYPE[kind], input_transform=lambda i, p: jnp.floor(i * Q) / Q)
+        Base = ODE if kind == "ode" else PDEStatio
+
+        class E1(Base):
+            def equation(self, z, u, params):
+                return u["u1"](z, params.extract_params("u1")) + params.eq_params["a"]
+
+        class E2(Base):
+            def equation(self, z, u, params):
+                return u["u2"](z, params.extract_params("u2")) - params.eq_params["a"]
+
+        nn = {"u1": pinn.init_params(), "u2": pinn2.init_params()}
+        params = ParamsDict(nn_params=nn, eq_params={"a": jnp.array(a0)})
+        ud, dd = {"u1": pinn, "u2": pinn2}, {"e1": E1(), "e2": E2()}
+        if kind == "ode":
+            loss = SystemLossODE(u_dict=ud, dynamic_loss_dict=dd, loss_weights=LossWeightsODEDict(dyn_loss=1.0),
+                                 params_dict=params)
+            gen = DataGeneratorODE(key, case["nt"], tmin, tmax, case["bT"], rar_parameters=rar,
+                                   nt_start=case["ntStart"])
+        else:
+            loss = SystemLossPDE(u_dict=ud, dynamic_loss_dict=dd, loss_weights=LossWeightsPDEDict(),
+                                 params_dict=params)
+            gen = CubicMeshPDEStatio(key=key, n=case["n"], nb=None, omega_batch_size=case["bX"],
+                                     omega_border_batch_size=None, dim=case["dim"], min_pts=xmin, max_pts=xmax,
+                                     rar_parameters=rar, n_start=case["nStart"])
+        mk = lambda a: ParamsDict(nn_params=nn, eq_params={"a": jnp.array(a)})
+        return {"gen": gen, "loss": loss, "params": params, "poly": poly, "poly2": poly2, "mk_params": mk}
     if kind == "ode":
         class Eq(ODE):
             def equation(self, t, u, params):
@@ -144,7 +186,8 @@ def build(case):
                                     dim=case["dim"], min_pts=xmin, max_pts=xmax, tmin=tmin, tmax=tmax,
                                     rar_parameters=rar, n_start=case.get("nStart_arg", case["nStart"]),
                                     nt_start=case.get("ntStart_arg", case["ntStart"]))
-    return {"gen": gen, "loss": loss, "params": params, "poly": poly, "Params": Params}
+    mk = lambda a: Params(nn_params=params.nn_params, eq_params={"a": jnp.array(a)})
+    return {"gen": gen, "loss": loss, "params": params, "poly": poly, "poly2": None, "mk_params": mk}
 
 
 class Labeler:
@@ -186,9 +229,14 @@ def snapshot(case, g, LT, LX):
     return out
 
 
-def exact_residuals(case, poly, a: Fraction, cand_t, cand_x):
-    """(P(q(t), q(x)) + a)^2 at the candidates, exact; list (ode/statio) or nT x nX table"""
+def exact_residuals(case, poly, a: Fraction, cand_t, cand_x, poly2=None):
+    """(P(q(t), q(x)) + a)^2 at the candidates, exact; list (ode/statio) or nT x nX table.
+    Systems (ode/statio): sum over the equations of the squared residuals, (P1 + a)^2 + (P2 - a)^2."""
     kind, Q = case["kind"], case["Q"]
+    if poly2 is not None:
+        zs = [[quant(Fraction(float(t)), Q)] for t in cand_t] if kind == "ode" else [
+            [quant(Fraction(float(v)), Q) for v in row] for row in cand_x]
+        return [(poly(z) + a) ** 2 + (poly2(z) - a) ** 2 for z in zs]
     qt = [[quant(Fraction(float(t)), Q)] for t in cand_t] if cand_t is not None else None
     qx = [[quant(Fraction(float(v)), Q) for v in row] for row in cand_x] if cand_x is not None else None
     if kind == "ode":
@@ -198,7 +246,7 @@ def exact_residuals(case, poly, a: Fraction, cand_t, cand_x):
     return [[(poly(zt + zx) + a) ** 2 for zx in qx] for zt in qt]
 
 
-def step_record(case, rec, poly, a: Fraction, LT, LX):
+def step_record(case, rec, poly, a: Fraction, LT, LX, poly2=None):
     """turns one hook record into the exact, labelled description of the step"""
     import numpy as np
 
@@ -222,7 +270,7 @@ def step_record(case, rec, poly, a: Fraction, LT, LX):
         out["candX"] = core.qlist(cx)
         out["candXLab"] = LX.labs(cx)
     out["mse"] = core.qlist(np.asarray(d["mse"]))
-    ex = exact_residuals(case, poly, a, ct, cx)
+    ex = exact_residuals(case, poly, a, ct, cx, poly2)
     out["exact"] = [[core.qstr(v) for v in row] for row in ex] if kind == "nonstatio" else [core.qstr(v) for v in ex]
     out["finite"] = bool(np.all(np.isfinite(np.asarray(d["mse"]))))
     return out
@@ -281,13 +329,13 @@ def run_trigger(case):
         else:
             _, i, a = op
             af = Fraction(a)
-            params = S["Params"](nn_params=S["params"].nn_params, eq_params={"a": jnp.array(float(af))})
+            params = S["mk_params"](float(af))
             _, _, g = trigger_rar(i, loss, params, g, st, sf)
             recs = _drain()
             ev = {"ev": "trigger", "i": i, "a": a, "stepped": len(recs) > 0, "n_hook_records": len(recs),
                   **snapshot(case, g, LT, LX)}
             if recs:
-                ev.update(step_record(case, recs[0], poly, af, LT, LX))
+                ev.update(step_record(case, recs[0], poly, af, LT, LX, S["poly2"]))
             events.append(ev)
     return {"init": init, "events": events}
 
@@ -343,8 +391,19 @@ def run_solve(case):
             "a_final": core.qstr(a_final)}
 
 
+def _raised_in_jinns(e):
+    """does the traceback pass through jinns (its own code or the jax calls it makes)?"""
+    import traceback
+
+    return any("/jinns/" in fr.filename for fr in traceback.extract_tb(e.__traceback__))
+
+
 def run(case):
+    """an exception raised by jinns (construction, tracing of trigger_rar, solve) is an observation:
+    the configuration was rejected; anything else is a harness bug and escapes"""
     try:
         return run_trigger(case) if case["mode"] == "trigger" else run_solve(case)
-    except (ValueError, TypeError, NotImplementedError, AssertionError, ZeroDivisionError) as e:
+    except Exception as e:  # noqa: BLE001
+        if not _raised_in_jinns(e):
+            raise
         return {"error": core.err_kind(e), "message": str(e)[:300]}
